@@ -391,7 +391,86 @@ def r7_scratch_arenas_get_the_configured_capacity(ctx):
     ctx.floor("scratch arenas created by init", len(news), 1)
 
 
-RULES = [("C14-R1", r1_exit_status), ("C14-R2", r2_same_wiring), ("C14-R2b", r2b_cli_prints_the_library_rendering), ("C14-R2c", r2c_routes_are_labelled_apart), ("C14-R3", r3_scratch_rule), ("C14-R4", r4_global_state), ("C14-R5", r5_report_gets_the_text_it_parsed), ("C14-R6", r6_errors_anywhere_count), ("C14-R7", r7_scratch_arenas_get_the_configured_capacity)]
+def _calls_in(e, out):
+    if isinstance(e, tuple):
+        if e and e[0] == "call" and len(e) > 2:
+            out.append(e[1])
+        for x in e:
+            if isinstance(x, (tuple, list)):
+                _calls_in(x, out)
+    elif isinstance(e, list):
+        for x in e:
+            _calls_in(x, out)
+    return out
+
+
+TEXT_NEUTRAL = {"as_str", "as_bytes", "from_utf8", "from_utf8_unchecked", "deref", "as_ref", "borrow", "len", "as_slice", "as_mut_str", "as_mut_slice", "new_in", "new",
+                "with_capacity_in", "with_capacity", "read_to_string", "branch", "unwrap", "expect", "unwrap_unchecked", "as_deref", "as_path", "clone", "to_owned"}
+
+
+def r8_every_route_runs_the_text_it_was_given(ctx):
+    """The three routes (file, --eval, stdin) differ only in where the text comes from: what each hands to run_source is the
+    text it read, through conversions that change no byte.  A route that trims, strips or otherwise edits the text first
+    accepts (or rejects) programs the library and the other routes treat differently."""
+    n = 0
+    for fid, fn in sorted(ctx.bin.fns.items()):
+        for c in fn.calls():
+            if (c.callee or "") != "cmd::run_source" or len(c.args) < 2:
+                continue
+            n += 1
+            ctx.touch(fn)
+            e = ne(fn.deep(c.args[1], 20))
+            edits = sorted({x.split("::")[-1] for x in _calls_in(e, []) if x.split("::")[-1] not in TEXT_NEUTRAL})
+            key = "route-text|%s" % parent_fn(fid)
+            if edits:
+                ctx.bad("%s|%s" % (key, ",".join(edits)[:40]), fn.where(c.block), "%s passes its text through %s before running it (`%s`): a program text is treated differently on this route than by the library and the other routes" % (parent_fn(fid), ", ".join(edits), sh(e)[:80]))
+            else:
+                ctx.ok(key, fn.where(c.block), "run_source(.., %s)" % sh(e)[:60])
+    ctx.floor("routes into run_source", n, 3)
+
+
+def r9_shout_prints_the_value_it_records(ctx):
+    """`shout(v)` prints v and records v (Runtime.output is what the library reports): the printing half formats its own
+    parameter with Display, a line break after it, and does nothing else to it."""
+    f = ctx.need("builtins::GlobalBuiltin::shout")
+    ctx.touch(f)
+    calls = [(c.callee or "") for c in f.calls()]
+    other = sorted({x.split("::")[-1] for x in calls if not (x.endswith("Argument::new_display") or x.endswith("Arguments::new") or x.endswith("Arguments::new_const") or x.endswith("io::_print"))})
+    disp = [c for c in f.calls() if (c.callee or "").endswith("Argument::new_display")]
+    whole = bool(disp) and all(re.match(r"^(\(tuple\)::\{)?value\}?(\.0)?$", sh(ne(f.deep(c.args[0], 8))).replace("(tuple)::{value}.0", "value")) for c in disp)
+    tmpl = [sh(ne(f.deep(c.args[0], 4))) for c in f.calls() if (c.callee or "").endswith("Arguments::new")]
+    plain = all(not re.search(r"[A-Za-z0-9 ,;:.!?-]", re.sub(r"\\x[0-9a-f]{2}|\\n|^b\"|\"$", "", t)) and t.count("\\n") == 1 for t in tmpl)
+    if not other and whole and tmpl and plain:
+        ctx.ok("shout|prints-its-argument", f.where(), "println!(\"{value}\")")
+    else:
+        ctx.bad("shout|prints-its-argument|%s" % (",".join(other)[:40] or ("template" if not plain else "argument")), f.where(), "shout does not print exactly its argument followed by one line break (extra calls: %s; formatted operand: %s; template %s): what the CLI prints differs from the value recorded in Runtime.output, which is what the library reports" % (other, [sh(ne(f.deep(c.args[0], 8)))[:40] for c in disp], tmpl))
+
+
+def r10_script_arguments_accept_every_text(ctx):
+    """The arguments that carry the program (`--eval`, the script path) take any string - the empty program is a program: in the
+    derived clap definition of the top-level Cli every value_parser is the one inferred from the field type."""
+    n = 0
+    for fid in ("<cmd::Cli as clap::Args>::augment_args", "<cmd::Cli as clap::Args>::augment_args_for_update"):
+        fn = ctx.bin.fns.get(fid)
+        if fn is None:
+            continue
+        ctx.touch(fn)
+        for c in fn.calls():
+            if (c.callee or "") != "clap::Arg::value_parser":
+                continue
+            n += 1
+            who = sh(ne(fn.deep(c.args[0], 8)))
+            m = re.search(r'new\("([a-z_]+)"\)', who)
+            arg = m.group(1) if m else "?"
+            srcs = [x for x in _calls_in(ne(fn.deep(c.args[1], 10)), [])]
+            if srcs and all("_infer_ValueParser_for" in x for x in srcs):
+                ctx.ok("cli-arg|%s|inferred-parser#%s" % (arg, fid.split("::")[-1]), fn.where(c.block), "value parser inferred from the field type")
+            else:
+                ctx.bad("cli-arg|%s|parser|%s" % (arg, ",".join(x.split("::")[-2] if "::" in x else x for x in srcs)[:40]), fn.where(c.block), "the `%s` argument of the CLI validates its value with %s: some program texts (the empty program) are refused on the command line although the library and the other routes run them" % (arg, [x.split("::")[-2:] for x in srcs]))
+    ctx.floor("value parsers of the top-level CLI arguments", n, 2)
+
+
+RULES = [("C14-R1", r1_exit_status), ("C14-R2", r2_same_wiring), ("C14-R2b", r2b_cli_prints_the_library_rendering), ("C14-R2c", r2c_routes_are_labelled_apart), ("C14-R3", r3_scratch_rule), ("C14-R4", r4_global_state), ("C14-R5", r5_report_gets_the_text_it_parsed), ("C14-R6", r6_errors_anywhere_count), ("C14-R7", r7_scratch_arenas_get_the_configured_capacity), ("C14-R8", r8_every_route_runs_the_text_it_was_given), ("C14-R9", r9_shout_prints_the_value_it_records), ("C14-R10", r10_script_arguments_accept_every_text)]
 
 EXPLANATION = (
     "R1: every return of cmd::run_source that yields ExitCode::SUCCESS is edge-dominated by 'no parse diagnostics', 'no "
@@ -414,3 +493,6 @@ EXPLANATION += (
 ASSUMPTIONS = ["the wasm crate is analysed lexically (token scan of run_source's body)"]
 TRUSTED = ["rustc nightly MIR for the naija binary crate", "nsx exporter", "regular-expression scan of wasm/src/lib.rs"]
 NONTRIVIAL = "one obligation per exit path, per pipeline stage/argument, per scratch_arena call site and per global-state clause"
+EXPLANATION += (
+    ' R8: what each route hands to run_source is the text it read, through byte-preserving conversions only. R9: shout prints its own parameter with Display and one line break, nothing else. R10: in the derived clap definition of the top-level Cli every value parser is the one inferred from the field type (the empty program is a program).'
+)
